@@ -766,7 +766,7 @@ pub fn run() {
     c.assume("float round trip tolerance: 4 ulp of max(1,|f|) (ulp = 2^-52), distance taken modulo 2");
     let t = c.tier;
     // batches of 64 sub-cases
-    let (b_nf, b_ar, b_lp, b_lr, b_fl) = t.pick((2_000usize, 1_500usize, 2_500usize, 1_000usize, 1_500usize), (40_000usize, 30_000usize, 50_000usize, 20_000usize, 30_000usize));
+    let (b_nf, b_ar, b_lp, b_lr, b_fl) = t.pick((2_000usize, 1_500usize, 2_500usize, 1_000usize, 1_500usize), (300_000usize, 200_000usize, 350_000usize, 150_000usize, 200_000usize));
     // python log: quick <= 20000 events, thorough <= 1e6
     let (keep_p, keep_r) = t.pick((230u64, 80u64), (11_000u64, 4_500u64));
     run_family("normal-form-eq-predicates", b_nf, 0, |f, i, r, t, _| sub_normal_eq_pred(f, i, r, t));
